@@ -189,7 +189,10 @@ nni_msgq_run_getq(nni_msgq *mq)
 static void
 nni_msgq_run_notify(nni_msgq *mq)
 {
-	if (mq->mq_len < mq->mq_cap || !nni_list_empty(&mq->mq_aio_getq)) {
+	// A new writer waits behind parked writers (see nni_msgq_aio_put),
+	// even when there is room, so it is not sendable then.
+	if (nni_list_empty(&mq->mq_aio_putq) &&
+	    (mq->mq_len < mq->mq_cap || !nni_list_empty(&mq->mq_aio_getq))) {
 		nni_pollable_raise(&mq->mq_sendable);
 	} else {
 		nni_pollable_clear(&mq->mq_sendable);
